@@ -35,8 +35,8 @@ def rule_a(prog, rep):
                 if k == 'call':
                     c = callee(nd)
                     sh = short(c)
-                    if sh == 'insert' and nd['args'] and any(x.get('k') == 'field' and x['name'] in ('set_buffer', 'deleted_buffer')
-                                                             for x, _ in walk(nd['args'][0])):
+                    if sh in ('insert', 'extend') and nd['args'] and any(x.get('k') == 'field' and x['name'] in ('set_buffer', 'deleted_buffer')
+                                                                         for x, _ in walk(nd['args'][0])):
                         fld = [x['name'] for x, _ in walk(nd['args'][0]) if x.get('k') == 'field' and x['name'].endswith('_buffer')][0]
                         return 'buffer:' + fld
                     if c == f'{AGG}::send_current_state':
@@ -82,7 +82,17 @@ def rule_a(prog, rep):
                         problems.append('flush after the insert of the same event')
             # what is inserted: every pair of the event
             loops = [nd for nd, a in walk(arm['body']) if nd.get('k') == 'for']
-            if not loops or not all('#' + sv in x for x in b.origins(loops[0]['iter'])):
+            exts = [nd for nd, a in walk(arm['body']) if nd.get('k') == 'call' and short(callee(nd)) == 'extend' and
+                    any(x.get('k') == 'field' and x['name'] == own for x, _ in walk(nd['args'][0]))]
+            every = bool(loops) and all('#' + sv in x for x in b.origins(loops[0]['iter']))
+            if not every and len(exts) == 1:
+                # `buffer.extend(kvps.into_iter().map(|kvp| (kvp.key, kvp.value)))`: the whole event, unfiltered
+                chain, cur = [], exts[0]['args'][1]
+                while isinstance(cur, dict) and cur.get('k') == 'call' and cur['args']:
+                    chain.append(short(callee(cur)))
+                    cur = cur['args'][0]
+                every = set(chain) <= {'into_iter', 'iter', 'map', 'cloned'} and all('#' + sv in x for x in b.origins(exts[0]['args'][1]))
+            if not every:
                 problems.append('not every pair of the event is buffered')
             if problems:
                 rep.violation('C16.a', f'aggregate:{sv}', f'{f.file}:{arm.get("ln")}', '; '.join(sorted(set(problems))),
@@ -271,7 +281,12 @@ def rule_c(prog, rep):
     if not any('?send_is_scheduled=0' in t for (ex, t, v) in paths):
         problems.append('the flag is not tested')
     sc = crate.calls(f, lambda c: c == f'{AGG}::schedule_send')
-    if len(sc) != 1 or b.origins(sc[0][0]['args'][2]) != {'param(self).aggregate_duration'}:
+    passes_dur = len(sc) == 1 and any(b.origins(a_) == {'param(self).aggregate_duration'} for a_ in sc[0][0]['args'][1:])
+    s_fn = crate.fn(f'{AGG}::schedule_send')
+    s_b = Bindings(crate, s_fn)
+    sl_ = [nd for nd, an in crate.walk_fn(s_fn) if nd.get('k') == 'call' and short(callee(nd)) == 'sleep']
+    reads_own = bool(sl_) and s_b.origins(sl_[0]['args'][0]) == {'param(self).aggregate_duration'}
+    if len(sc) != 1 or not (passes_dur or reads_own):
         problems.append('schedule_send is not called with self.aggregate_duration')
     if problems:
         rep.violation('C16.c', 'aggregate:schedule', f.loc, '; '.join(sorted(set(problems))), key='C16.c/aggregate/' + '|'.join(sorted(set(problems))))
@@ -294,7 +309,7 @@ def rule_c(prog, rep):
     paths = Tracer(crate, cl2, closure_mode=mode).run_fn(s)
     seqs = {tuple(base(x) for x in t if '@' not in x) for (ex, t, v) in paths}
     sl = [nd for nd, an in crate.walk_fn(s) if nd.get('k') == 'call' and short(callee(nd)) == 'sleep']
-    if seqs == {('task:sleep', 'task:trigger')} and sl and sb.origins(sl[0]['args'][0]) == {'param(aggregate_duration)'}:
+    if seqs == {('task:sleep', 'task:trigger')} and sl and sb.origins(sl[0]['args'][0]) in ({'param(aggregate_duration)'}, {'param(self).aggregate_duration'}):
         rep.ok('C16.c', 'schedule_send', s.loc, 'spawn { sleep(aggregate_duration); send_trigger.send(()) }')
     else:
         rep.violation('C16.c', 'schedule_send', s.loc, f'timer task does {sorted(seqs)}', key='C16.c/schedule_send')
